@@ -35,7 +35,7 @@ func (tx *XATx) Commit() error {
 
 func (tx *XATx) Rollback() error {
 	var err error
-	if tx.conn != nil && tx.conn.xaActive {
+	if tx.conn != nil && tx.conn.isActive() {
 		// XA END & XA ROLLBACK
 		err = tx.conn.Rollback(context.Background())
 	}
